@@ -49,6 +49,17 @@ CANARIES = [
     ("topo-no-nulling", "c01_topo", "_utils/__init__.py", "    t._view_grad = None\n    t._grad = None\n", "    t._view_grad = None\n", r"receiver_grads_none|C07\.null"),
     ("topo-skip-leaf-inputs", "c01_topo", "_utils/__init__.py", "            collect_all_tensors_and_clear_grads(t_loop, seen, topo_sorted_tensors)", "            if t_loop.creator is not None:\n                collect_all_tensors_and_clear_grads(t_loop, seen, topo_sorted_tensors)", r"inputs_done|closed"),
     ("topo-seen-before-recursion", "c01_topo", "_utils/__init__.py", "    _marked.remove(id_)\n    seen.add(id_)\n    topo_sorted_tensors.appendleft(t)", "    _marked.remove(id_)\n    topo_sorted_tensors.appendleft(t)", r"C01\.topo\.post\.(receiver_member|seen_grows|closed)"),
+    ("op-null-on-numpy-base", "c_op", "tensor_base.py", "                if base is None:\n                    # non-view ops clear grads", "                if op_out_base is None:\n                    # non-view ops clear grads", r"C07\.null\.operand"),
+    ("op-no-release-on-failure", "c_op", "tensor_base.py", "                _mem.release_writeability_lock_on_op(_uniques_bases_then_arrs)\n            raise e", "                pass\n            raise e", r"C08\.op\.failed_op_releases"),
+    ("op-swallow-exception", "c_op", "tensor_base.py", "                _mem.release_writeability_lock_on_op(_uniques_bases_then_arrs)\n            raise e", "                _mem.release_writeability_lock_on_op(_uniques_bases_then_arrs)\n            raise", None),
+    ("op-base-of-parent-var", "c_op", "tensor_base.py", "base = parent_var if parent_var.base is None else parent_var.base", "base = parent_var", r"C04\.base\.result_base"),
+    ("op-drop-shared-base-disjunct", "c_op", "tensor_base.py", "                    or (op_out_base is parent_data_base)\n", "", r"C04\.base\.(result_base|view_children)"),
+    ("op-forget-view-child", "c_op", "tensor_base.py", "        if parent_var is not None:\n            parent_var._view_children.append(tensor_out)\n", "", r"C04\.base\.view_children"),
+    ("op-constant-all-vs-any", "c_op", "tensor_base.py", "            if any(not var.constant for var in tensor_vars):", "            if all(not var.constant for var in tensor_vars):", r"C10\.infer"),
+    ("op-lock-after-kernel", "c_op", "tensor_base.py", "            _mem.lock_arr_writeability(tensor_out.data)\n", "", r"C08\.op\.(locks_result|finalizer)"),
+    ("op-wrap-copy", "c_op", "tensor_base.py", "                    cls(var, constant=True, copy=False)\n                    if not isinstance(var, Tensor)", "                    cls(var, constant=True, copy=True)\n                    if not isinstance(var, Tensor)", r"C03\.cast"),
+    ("op-no-consumer-record", "c_op", "tensor_base.py", "        for var in tensor_vars:\n            var._ops.add(ref_f)\n", "        for var in tensor_vars[:1]:\n            var._ops.add(ref_f)\n", r"op\.consumer_recorded"),
+    ("op-replay-constant-lost", "c_op", "tensor_base.py", "            f.replay_force_constant = constant\n", "            f.replay_force_constant = None\n", r"C04\.base\.replay_info"),
     ("ctx-exit-no-dec", "c15_ctx", "_utils/__init__.py", "        self._depth -= 1\n        self.state = self._depth_tracker.pop(self._depth)", "        self.state = self._depth_tracker.pop(self._depth - 1)", r"C15\.ctx\..*__exit__\.depth"),
     ("ctx-enter-order", "c15_ctx", "_utils/__init__.py", "        self._depth_tracker[self._depth] = self.state\n        self._depth += 1\n        self.state = self._enter_set_value", "        self._depth += 1\n        self.state = self._enter_set_value\n        self._depth_tracker[self._depth - 1] = self.state", r"C15\.ctx\..*__enter__\.saved"),
     ("ctx-exit-swallow", "c15_ctx", "_utils/__init__.py", "        self.state = self._depth_tracker.pop(self._depth)\n", "        self.state = self._depth_tracker.pop(self._depth)\n        return True\n", r"C15\.ctx\..*(returns_falsy|exception_propagates)"),
